@@ -3,7 +3,7 @@
    SPEC = direct indexing / per-semantic input lists / the documented normalisations. *)
 From Coq Require Import List Bool ZArith NArith Lia.
 From PC Require Import Base.Atoms Base.Xml Base.Outcome Base.Py Model.LoadPrim Model.Namespace Model.LoadDoc
-                       Proofs.LoadPrim Proofs.LoadPrimViews Proofs.LoadPrimRefine Proofs.LoadDoc Proofs.LoadFlat Proofs.LoadGeom.
+                       Proofs.LoadPrim Proofs.LoadPrimViews Proofs.LoadPrimRefine Proofs.LoadDoc Proofs.LoadFlat Proofs.LoadGeom Proofs.LoadDocRefine.
 Import ListNotations.
 Local Open Scope nat_scope.
 
@@ -227,6 +227,18 @@ Theorem C05_node_load_explicit : forall en u o h a t kids v,
 Proof. exact load_node_explicit. Qed.
 Print Assumptions C05_node_load_explicit.
 
+(* THE WHOLE DOCUMENT.  [load_doc] is the model of Collada.__init__ (images, effects, materials,
+   animation and controller sources, geometries, lights, cameras, library nodes with deferred
+   instance_node, visual scenes, default scene); [read_doc] walks the same libraries with the
+   declarative readings of geometry and nodes.  If no checkSource call renames a source (the param
+   names of every mesh fit their uses - the one thing the loader changes that the file does not say),
+   then whenever the load succeeds the declarative reading gives the same view. *)
+Theorem C05_load_is_read : forall numtab root v,
+  Forall (names_fit numtab) (geometry_elems root) ->
+  load_doc numtab root = Ok v -> read_doc numtab root = Ok v.
+Proof. exact load_doc_is_read. Qed.
+Print Assumptions C05_load_is_read.
+
 (* ---- non-vacuity *)
 
 (* a primitive whose inputs share and skip offsets: VERTEX (through <vertices>, which also carries a
@@ -285,6 +297,43 @@ Example C05_refinement_example :
 Proof. vm_compute. repeat split; reflexivity. Qed.
 
 Local Open Scope N_scope.
+
+(* non-vacuity of C05_load_is_read: a document with one mesh (positions X,Y,Z through <vertices>, one
+   triangle) and a scene instantiating it: the names fit, the document loads, the reading agrees *)
+Definition c05_doc : et :=
+  let E u t a tx k := ET u (Some t) (Some t) a tx k in
+  E 1 a_COLLADA [] None
+    [E 2 a_library_geometries [] None
+       [E 3 a_geometry [(a_id, AStr 1000)] None
+          [E 4 a_mesh [] None
+             [E 5 a_source [(a_id, AStr 1001)] None
+                [E 6 a_float_array [] (Some (map TInt [0; 0; 0; 1; 0; 0; 0; 1; 0]%Z)) [];
+                 E 7 a_technique_common [] None
+                   [E 8 a_accessor [] None
+                      [E 9 a_param [(a_name, AStr a_X)] None []; E 10 a_param [(a_name, AStr a_Y)] None [];
+                       E 11 a_param [(a_name, AStr a_Z)] None []]]];
+              E 12 a_vertices [(a_id, AStr 1002)] None
+                [E 13 a_input [(a_semantic, AStr a_POSITION); (a_source, ARef true 1001)] None []];
+              E 14 a_triangles [(a_count, AInt 1)] None
+                [E 15 a_input [(a_offset, AInt 0); (a_semantic, AStr a_VERTEX); (a_source, ARef true 1002)] None [];
+                 E 16 a_p [] (Some (map TInt [0; 1; 2]%Z)) []]]]];
+     E 17 a_library_visual_scenes [] None
+       [E 18 a_visual_scene [(a_id, AStr 1003)] None
+          [E 19 a_node [(a_id, AStr 1004)] None
+             [E 20 a_translate [] (Some (map TInt [1; 2; 3]%Z)) [];
+              E 21 a_instance_geometry [(a_url, ARef true 1000)] None []]]];
+     E 22 a_scene [] None [E 23 a_instance_visual_scene [(a_url, ARef true 1003)] None []]]%N.
+
+Example C05_load_is_read_nonvacuous :
+  Forall (names_fit []) (geometry_elems c05_doc) /\
+  exists v, load_doc [] c05_doc = Ok v /\ read_doc [] c05_doc = Ok v.
+Proof.
+  split.
+  - assert (E : geometry_elems c05_doc = [nth 0 (ekids (nth 0 (ekids c05_doc) c05_doc)) c05_doc]) by reflexivity.
+    rewrite E. constructor; [|constructor].
+    intros g srcs H S. vm_compute in H, S. injection H as <-. injection S as <-. reflexivity.
+  - eexists. split; vm_compute; reflexivity.
+Qed.
 
 (* a node without a name, holding all five transforms interleaved with a nested node, an
    instance_geometry with a bound material, an extra and an <asset> (skipped) *)
